@@ -15,6 +15,7 @@ def regenerate(res):
     import attrlib
     attrlib.regenerate_pyfront(res)
     attrlib.regenerate_wblocks(res)
+    attrlib.regenerate_ggs(res)
 
 
 def tree_hash(d):
